@@ -367,8 +367,10 @@ def _harness_run(sd, binp, chunks, tag, settle_ms=60):
         jf = vf.write_ndjson(os.path.join(w, "jobs.ndjson"), ch)
         tr = os.path.join(w, "trace.ndjson")
         env = dict(os.environ)
+        # resource guard of the process: what the model says these jobs leave behind legitimately, plus a margin
+        legit = sum(j["reps"] * sum(x["n"] * (1 + x["w"]) for x in j.get("expect") or []) for j in ch)
         env.update(VERIF_IN=jf, VERIF_OUT=tr, VERIF_WORK=w, VERIF_INITPROG=init, EGO_PATH=vf.REPO,
-                   VERIF_SETTLE_MS=str(settle_ms), VERIF_FINAL_EVERY="120")
+                   VERIF_SETTLE_MS=str(settle_ms), VERIF_FINAL_EVERY="120", VERIF_MAX_GOROUTINES=str(legit + 150))
         procs.append(([binp, "-test.run", "^TestVerifC09$", "-test.timeout", "2400s"], None, w, env, tr))
     res = vf.run_many([p[:4] for p in procs], nproc=4, timeout=2500)
     traces = []
@@ -572,8 +574,7 @@ def run():
                           "came to rest (execution: %s %s, ended %s)" % (e.get("path"), e.get("key"), e.get("kind")),
                           {"event": {k: e.get(k) for k in ("ev", "path", "key", "kind", "err", "marks", "n")},
                            "job": _job_for_replay([j for j in alljobs if j["key"] == e.get("key")][:1]),
-                           "leftover": [g for g in e.get("snap", []) if g["cfn"] in ("(*Context).RunFromAddress", "goByteCode")
-                                        or (g["ego"] and g["cpkg"] != "github.com/tucats/ego/internal/caches")][:12]})
+                           "new_goroutines_after_this_execution": e.get("add", [])[:12]})
         kinds = {}
         for e in execs:
             kinds[e["path"] + "/" + e["kind"]] = kinds.get(e["path"] + "/" + e["kind"], 0) + 1
@@ -624,7 +625,7 @@ def run():
                     "program": render(cases[len(cases) // 2], seed=vf.SEED)})
         ex = [e for e in execs if e["expect"]][:1] or execs[:1]
         chk.sample({"kind": "recorded execution", "event": {k: ex[0][k] for k in ("path", "key", "kind", "marks", "expect", "n")},
-                    "table": ex[0]["snap"][:10]})
+                    "goroutines_new_or_changed": ex[0]["add"][:10], "goroutines_gone": ex[0]["del"][:10]})
     return chk.finish()
 
 
@@ -640,7 +641,7 @@ def _tampered(ev, rng):
     fake = 9000001
 
     def rec(cpkg, cfn):
-        return {"id": fake, "host": base["driver"], "cpkg": cpkg, "cfn": cfn, "ego": True, "frames": 0, "top": "x"}
+        return {"id": fake, "host": base["driver"], "cpkg": cpkg, "cfn": cfn, "ego": True, "frames": 0}
 
     def copy():
         return json.loads(json.dumps(ev))
@@ -652,20 +653,20 @@ def _tampered(ev, rng):
                           ("a second instance of a one-time worker is reported", dict(rec("os/signal", "Notify.func1.1"), ego=False),
                            "once-grows/os/signal.Notify.func1.1")):
         cp = copy()
-        for e in cp[i:finals[0] + 1]:
-            e["snap"].append(g)
+        cp[i]["add"].append(g)          # appears with execution i and is never seen to go
         out.append({"name": name, "events": cp, "at": i, "want_bad": want})
     cp = copy()
-    cp[i]["snap"].append(rec(BC, "(*Context).RunFromAddress"))
+    cp[i]["add"].append(rec(BC, "(*Context).RunFromAddress"))
+    cp[i + 1]["del"].append(fake)       # gone by the next profile
     out.append({"name": "a helper that exits late is not reported", "events": cp, "at": i, "want_bad": None})
     withexp = [x for x in execs if ev[x]["expect"] and x < finals[-1]]
     if withexp:
         j = withexp[-1]
         cp = copy()
-        prev = {g["id"] for g in cp[j - 1]["snap"]}
-        new = [g["id"] for g in cp[j]["snap"] if g["cfn"] == "goByteCode" and g["id"] not in prev][:1]
-        for e in cp[j:]:
-            e["snap"] = [g for g in e["snap"] if g["id"] not in new and g["host"] not in new]
+        new = [g["id"] for g in cp[j]["add"] if g["cfn"] == "goByteCode"][:1]
+        cp[j]["add"] = [g for g in cp[j]["add"] if g["id"] not in new and g["host"] not in new]
+        for e in cp[j + 1:]:
+            e["del"] = [x for x in e["del"] if x not in new]
         out.append({"name": "a missing legitimate program goroutine is noticed by the residue guard", "events": cp, "at": j,
                     "want_bad": None, "want_guard": True})
     return out
